@@ -132,6 +132,8 @@ def check(case):
     n_unhit = 0
     for k in ticks:
         b = F(k, 48)
+        if k % 3 == 0:
+            eng.time_at(frac_beat(b))  # asking for the time of a beat first must not change whether it is hittable
         got = eng.hittable(frac_beat(b))
         exp = not m.unhittable(b)
         evals += 1
